@@ -615,3 +615,38 @@ def check(run, prog, tier):
     import rules.C01o as c01o
     import callgraph as _cgm
     c01o.check(run, prog, _cgm.CallGraph(prog))
+
+    # ---- C01-p a mapping's element count covers every node that was linked before an error leaves the function
+    run.rule("C01-p", "lib/lpc/mapping.c: in a function that links new nodes into a mapping's hash table, every exit by error() that is reachable after a node was linked passes a store to that mapping's ->count first (keys()/values()/foreach allocate ->count elements and copy one per linked node, so an undercount is a heap overflow later)", 2)
+    mu = prog.unit("lib/lpc/mapping.c")
+    npf = 0
+    for f in sorted(mu.funcs.values(), key=lambda x: x.line):
+        if not f.file.endswith("lib/lpc/mapping.c"):
+            continue
+        links = set()
+        for b, i, n in f.nodes():
+            if n.get("k") == "Asg" and n.get("op") == "=":
+                l = strip(n["L"])
+                if l.get("k") == "Sub" and "mapping_node_s *" in (l.get("t") or "") and const_val(n["R"]) != 0 and "mapping_node_s **" in (strip(l["b"]).get("t") or ""):
+                    links.add(b.id)
+        if not links:
+            continue
+        counts = {b.id for b, i, n in f.nodes() if n.get("k") in ("Asg",) and strip(n["L"]).get("k") == "Mem" and strip(n["L"]).get("f") == "count" and strip(n["L"]).get("rec") in ("mapping_s", "mapping_t")}
+        counts |= {b.id for b, i, n in f.nodes() if n.get("k") == "Un" and n.get("op") in ("++",) and strip(n["e"]).get("k") == "Mem" and strip(n["e"]).get("f") == "count" and strip(n["e"]).get("rec") in ("mapping_s", "mapping_t")}
+        raises = [(b, i, n) for b, i, n in f.calls() if n.get("nr") or n.get("fn") in ("error", "mapping_too_large", "fatal")]
+        raises = [(b, i, n) for b, i, n in raises if n.get("fn") != "fatal"]
+        if not raises:
+            continue
+        npf += 1
+        run.saw(f)
+        bad = None
+        for b, i, n in raises:
+            starts = [s for l in links for s in f.blocks[l].live_succ()]
+            p = f.reach_avoiding(starts, lambda blk, t=b.id: blk.id == t, avoid_blocks=counts) if b.id not in counts else None
+            if p is not None:
+                bad = (n.get("fn"), n.get("l"), p[:8])
+                break
+        run.ob("C01-p", "count-before-raise:%s" % f.name, bad is None, "every error exit after a node was linked passes a store to ->count" if bad is None else
+               "%s() at line %s is reachable (path %s) after nodes were linked into the table without ->count having been brought up to date: the mapping keeps more nodes than it counts" % bad, f.file, bad[1] if bad else f.line, f.name,
+               what="%s can raise an error with nodes linked that the mapping's count does not include" % f.name)
+    run.need(npf >= 2, "functions that link mapping nodes and can raise (found %d)" % npf)
